@@ -122,6 +122,10 @@ func vxConcrete(v int) int {
 	return v
 }
 
+func vxConcreteBool(b bool) bool {
+	return b
+}
+
 func vxConcreteStr(s string) string {
 	return s
 }
